@@ -1,102 +1,2 @@
-"""C14 - every cassette image written is a well-formed CoCo tape stream (same runs as C06; owns the structural clauses)."""
-import random, time, multiprocessing as mp
-from harness import tlc, containers as ct
-
-OWN = {"C06": {"roundtrip"}, "C14": {"wellformed", "contents", "blocks", "leaders"}}
-
-
-def gates(ctx, thorough):
-    r = tlc.check_model("MC_Tape", "MC_Tape3" if thorough else "MC_Tape", workers=12, heap="16g", timeout=3000)
-    ctx.add_model("MC_Tape(BLK=3,data<=%d)" % (3 if thorough else 2), r, {"invariants": ["RoundTrip (scanner o writer = identity at every block boundary)", "ChunkLaw"]})
-    recs, r = tlc.export("MC_TapeLen")
-    if recs[0]["bad"] != 0:
-        raise tlc.MachineryError("MC_TapeLen: chunking law fails for %d lengths" % recs[0]["bad"])
-    ctx.cov["models"]["MC_TapeLen"] = {"kind": "theorem evaluated by TLC, exhaustive", "lengths": recs[0]["lengths"], "wall_s": round(r.wall, 2)}
-
-
-def judge(ctx, name, recs, t0):
-    verd, st = tlc.bulk("Tr_Tape", recs, nproc=6, min_chunk=40, heap="4g")
-    own = OWN[ctx.prop]
-    nv = 0
-    for r in recs:
-        v = verd[r["id"]]
-        for c in v["classes"]:
-            ctx.add_class("tapefile|%s|%s|%s|%s" % (c["len"], c["name"], c["type"], c["dtype"]))
-        ctx.add_class("tape|%d|%s|%s" % (min(v["nfiles"], 4), v["hasempty"], r["origin"]))
-        for cl in v["failed"]:
-            if cl not in own or (r["origin"] == "spec" and cl == "leaders"):
-                continue
-            if r["origin"] == "spec" and cl not in ("roundtrip", "leaders"):
-                raise tlc.MachineryError("spec-written tape fails the spec's own scanner (%s, %s)" % (cl, v["why"]))
-            item = {"clause": cl, "class": dict(v["fclass"], origin=r["origin"], hasempty=v["hasempty"], emptybefore=v["emptybefore"]),
-                    "symptom": {"why": v["why"], "nlisted_minus_nfiles": v["nlisted"] - v["nfiles"], "exc": r["listed"]["exc"].split(":")[0]}}
-            small = dict(r, buffer="(%d bytes)" % len(r["buffer"]), files=[dict(f, data=f["data"][:40] + (["..."] if len(f["data"]) > 40 else [])) for f in r["files"]],
-                         listed=dict(r["listed"], files=[dict(f, data=len(f["data"])) for f in r["listed"]["files"]]))
-            if ctx.report(item, {"kind": "tape", "record": small, "verdict": v}) == "violation":
-                nv += 1
-    ctx.add_suite(name, len(recs), len(recs), time.time() - t0, {"violating_items": nv})
-    r = recs[len(recs) // 2]
-    ctx.sample({"suite": name, "files": [dict(f, data=f["data"][:16]) for f in r["files"]], "buffer_len": len(r["buffer"]), "verdict": verd[r["id"]]["failed"]})
-
-
-def tool_written(ctx, name, filelists):
-    t0 = time.time()
-    with mp.Pool(16) as pool:
-        recs = pool.map(ct.tape_case, list(enumerate(filelists)), chunksize=20)
-    judge(ctx, name, recs, t0)
-
-
-def spec_written(ctx, name, filelists, rnd):
-    """reader direction: streams built by the specification's writer with arbitrary leaders / gaps"""
-    t0 = time.time()
-    ins = []
-    for k, fl in enumerate(filelists):
-        lay = {"blank": rnd.choice([0, 1, 128, 300]), "leader": rnd.choice([1, 2, 128, 255, 600]), "gap": rnd.choice([0, 0, 1, 128])}
-        ins.append({"id": k, "files": [ct.jfile(f) for f in fl], "lay": lay})
-    out, st = tlc.bulk("Gen_Tape", ins, nproc=6, min_chunk=40, heap="4g")
-    recs = []
-    for i in ins:
-        buf = out[i["id"]]["buffer"]
-        recs.append({"id": i["id"], "origin": "spec", "files": i["files"], "buffer": buf, "listed": ct.list_tape(buf), "werr": "", "lay": i["lay"]})
-    judge(ctx, name, recs, t0)
-
-
-def boundary_lists(rnd):
-    out = [[]]
-    for n in [0, 1, 2, 254, 255, 256, 257, 509, 510, 511, 764, 765, 766, 1020, 1275, 65535]:
-        for kind in ("ramp", "marker", "55"):
-            out.append([ct.mkfile("F%d" % n, ct.content(rnd, kind, n), 2, 0, 0x0E00, 0x0E10)])
-    for n in [0, 255, 256]:
-        for m in [0, 1, 255]:
-            out.append([ct.mkfile("ONE", ct.content(rnd, "ramp", n)), ct.mkfile("TWO", ct.content(rnd, "3c", m), 0, 255, 0x553C, 0x3C00), ct.mkfile("THREE", ct.content(rnd, "rand", 300), 1, 0)])
-    addrs = [0, 1, 0x7F, 0x80, 0xFF, 0x100, 0x101, 0xFFF, 0x1000, 0x7FFF, 0x8000, 0xFF00, 0xFFFF, 0x0A0D, 0x2000]
-    for i, a in enumerate(addrs):                      # all 16-bit load / entry addresses: every byte boundary, both positions
-        b = addrs[(i * 7 + 3) % len(addrs)]
-        out.append([ct.mkfile("AD%d" % i, [1, 2, 3, 4], 2, 0, a, b), ct.mkfile("AE%d" % i, [5, 6], rnd.choice([0, 1, 3]), rnd.choice([0, 255]), b, a)])
-    for nm in ["", "A", "ABCDEFGH", "ABCDEFGHI", "abcdefghijkl", "Mixed1", "U<"]:
-        out.append([ct.mkfile(nm, [1, 2, 3], 3, 255, 0xFFFF, 0x0055)])
-    return out
-
-
-def run(ctx):
-    thorough = ctx.tier == "thorough"
-    rnd = random.Random(ctx.seed * 982451653 + (6 if ctx.prop == "C06" else 14))
-    gates(ctx, thorough)
-    lists = boundary_lists(rnd)
-    lists += [ct.random_tape_files(rnd) for _ in range(6000 if thorough else 500)]
-    if thorough:
-        lists += [[ct.mkfile("L%d" % n, ct.content(rnd, "rand", n))] for n in range(0, 1101)]
-    tool_written(ctx, "tool-written", lists)
-    rl = [fl for fl in boundary_lists(rnd) if fl] + [ct.random_tape_files(rnd, lengths=[1, 2, 254, 255, 256, 510, 511, 1020]) for _ in range(2000 if thorough else 200)]
-    rl = [[f for f in fl] for fl in rl]
-    spec_written(ctx, "spec-written", rl, rnd)
-    ctx.cov["rule"] = ("file lists (0..4 files; names 0..12 chars; lengths 0,1,254,255,256,509,510,511,765,1020,... ; contents ramp / all $55 / all $3C / block-marker pattern / "
-                       "random; addresses incl. $553C $3C00 $0055; types 0-3 x data types $00/$FF) written by the tool and scanned by Tape!ParseTape (checksum-verifying), "
-                       "and streams written by the specification's writer (arbitrary blank/leader/gap lengths) listed by the tool. distinct_nontrivial = (length class, name class, "
-                       "type, data type) classes of files x tape shape classes")
-    ctx.assumptions += ["the two 16-bit addresses of the name block are compared as a pair in stream order (the property does not fix their order)"]
-
-
-def replay(ctx, rp):
-    print(rp["replay"]["record"]["files"])
-    return 0
+"""C14 - every cassette image written is a well-formed CoCo tape stream: same runs as C06, owns the structural clauses."""
+from harness.props.c06 import run, replay  # noqa
